@@ -722,8 +722,30 @@ func cmdRun(args []string) {
 		}
 		c := conf.lines[0]
 		if c.Class != l.Class || c.VStep != l.VStep || c.LogHash != l.LogHash {
-			die2("replay divergence on run %d: first %s step=%d log=%s, replay %s step=%d log=%s — the simulator is not deterministic; nothing it reports is believed",
-				l.Run, l.Class, l.VStep, l.LogHash, c.Class, c.VStep, c.LogHash)
+			// The run gave another result alone in a fresh process than in its batch. If two
+			// fresh processes agree with each other, the run itself is repeatable and what
+			// differed is state the code under test kept in the worker process from earlier,
+			// unrelated runs (package-level caches keyed by names or UIDs that recur between
+			// runs - nothing a run's own history accounts for). The run on its own is then
+			// what counts: its violation, if it has one, is reported and replayable; if it has
+			// none, nothing is reported for it. Anything else is a simulator that does not
+			// repeat, and nothing it says is believed.
+			conf2 := runWorker(binOf(l.Race), *prop, []Job{{ID: 0, Seed: seed, Run: l.Run, Full: true, Pos: l.Pos, Kind: l.Kind, Ref: l.Interactions != "" && l.Kind == ""}}, 1, 0, 5*time.Minute)
+			if conf2.died || len(conf2.lines) != 1 || conf2.lines[0].Class != c.Class || conf2.lines[0].VStep != c.VStep || conf2.lines[0].LogHash != c.LogHash {
+				die2("replay divergence on run %d: first %s step=%d log=%s, replay %s step=%d log=%s — the simulator is not deterministic; nothing it reports is believed",
+					l.Run, l.Class, l.VStep, l.LogHash, c.Class, c.VStep, c.LogHash)
+			}
+			enumStats["results_that_depended_on_earlier_runs_in_the_worker_process"]++
+			fmt.Printf("NOTE: run %d gave class=%s only after other runs in the same worker process; alone (two fresh processes agree) it gives class=%q - process-global state of the code under test is carried between runs; the run on its own is what is judged\n", l.Run, l.Class, c.Class)
+			if c.Violation == "" {
+				continue
+			}
+			if f := matchFinding(findings, &c); f != nil {
+				knownSeen[fmt.Sprintf("property=%s %s", f.Property, f.What)]++
+				continue
+			}
+			c.Pos, c.Kind, c.Race, c.Interactions = l.Pos, l.Kind, l.Race, l.Interactions
+			l = &c
 		}
 		best := c
 		bestTape := c.Tape
